@@ -167,7 +167,7 @@ ACCESS = re.compile(r'(public|private|protected)\s*:')
 NAME_RE = re.compile(r'(operator\s*(?:\[\]|->\*?|<=>|[-+*/%^&|~!=<>]{1,3}|,)|~?[A-Za-z_]\w*)\s*$')
 
 
-def split_members(text, base_line=1, access='public'):
+def split_members(text, base_line=1, access='public', descend_namespaces=False):
     """yield dicts for every function (definition or declaration) at the top
     level of `text` (a class body or a fmt template); descends into nested
     class bodies"""
@@ -237,10 +237,14 @@ def split_members(text, base_line=1, access='public'):
             head = text[head_start:j]
             k = _match(text, j, '{', '}')
             mcls = re.search(r'\b(class|struct)\s+(\w+)', head)
+            mns = re.match(r'\s*(inline\s+)?namespace\b\s*([\w:]*)\s*$', head)
             if mcls:
                 for r in split_members(text[j + 1:k], base_line + text.count('\n', 0, j + 1),
                                        'private' if mcls.group(1) == 'class' else 'public'):
-                    r['nested_in'] = mcls.group(2)
+                    r.setdefault('nested_in', mcls.group(2))
+                    yield r
+            elif mns and descend_namespaces:
+                for r in split_members(text[j + 1:k], base_line + text.count('\n', 0, j + 1), 'public', True):
                     yield r
             i = k + 1
             continue
@@ -335,7 +339,7 @@ def split_members(text, base_line=1, access='public'):
                 else:
                     k += 1
         if name not in ('static_assert', 'SBEPP_ASSERT', 'SBEPP_SIZE_CHECK', 'SBEPP_WARNINGS_OFF',
-                        'SBEPP_WARNINGS_ON') and not re.match(r'__\w+__$', pre.strip() + name if False else 'x'):
+                        'SBEPP_WARNINGS_ON'):
             yield {'templates': templates, 'name': name, 'ret': norm(pre_name), 'params': norm(params),
                    'quals': [q for q in quals if q in ('const', '=default/delete')], 'trailing': trailing,
                    'body': body, 'access': acc, 'line': base_line + text.count('\n', 0, head_start)}
@@ -496,6 +500,31 @@ def _find_close(txt, start):
         except ValueError:
             return len(txt)
     return len(txt)
+
+
+def scan_generated_header(raw):
+    """member functions of a *generated* header with their template guard and
+    the write calls in their bodies (Layer G re-extraction, used per schema by
+    the C11 check)"""
+    src = strip_preprocessor(cxx.strip_comments(raw))
+    out = []
+    for fn in split_members(src, 1, 'public', True):
+        if fn['body'] is None:
+            continue
+        body = fn['body']
+        w = []
+        if re.search(r'::sbepp::detail::set_value\s*<', body):
+            w.append('set_value')
+        if re.search(r'\.\s*template\s+set_(last_)?value\s*<', body):
+            w.append('cursor.set_value')
+        if re.search(r'\bheader\s*\.\s*\w+\s*\(\s*[^()\s]', body):
+            w.append('header.setter')
+        if direct_writes(body):
+            w.append('direct')
+        out.append({'cls': fn.get('nested_in'), 'name': fn['name'], 'params': fn['params'], 'line': fn['line'],
+                    'guard': template_guard(fn['templates'], fn['trailing']), 'writes': w,
+                    'kinds': param_kinds(fn['params'])})
+    return out
 
 
 # ------------------------------------------------------------------ extraction
@@ -732,7 +761,7 @@ def extract(repo, outdir):
                     continue
             else:
                 k = c
-            tgt = [t for t in by_key.get(k, []) if t != r['id'] or False]
+            tgt = [t for t in by_key.get(k, []) if t != r['id']]
             if tgt:
                 if k not in names:
                     names.append(k)
